@@ -95,6 +95,20 @@ def run(ctx):
         ctx.hist('random/' + kind)
         one(tuple(float(x) for x in v))
     ctx.flush()
+    # ---- round 7 (hx_r7b): ulp-extremum series inside ONE binade (gen.one_binade_levels): neighbouring samples that differ in the last bits AT turning points,
+    # on plateaus and at the ends; every difference the functions form (x - x[0], peak - previous peak) is exact there, so the exact model and the
+    # exact conservation clauses apply as they are (a change of one ulp is a change: it counts towards the total variation)
+    for label, v in gen.ulp_extremum_exhaustive(max_k=3 if ctx.tier == 'quick' else 5, offsets=(-1, 0, 1) if ctx.tier == 'quick' else (-2, -1, 0, 1, 3), one_binade=True):
+        ctx.hist(label)
+        one(v)
+    ctx.flush()
+    for i in range(150 if ctx.tier == 'quick' else 3000):
+        kind, v = gen.ulp_extremum_series(rng, gen.log_int(rng, 4, 60 if i % 10 else 300), one_binade=True)
+        if len(set(v.tolist())) < 2:
+            continue
+        ctx.hist('ulp-extremum/' + kind)
+        one(tuple(float(x) for x in v))
+    ctx.flush()
     power_law(ctx)
     ctx.flush()
 
